@@ -72,7 +72,38 @@ pub fn expand_src(src: &str) -> Expansion {
         Ok(t) => t,
         Err(e) => return Expansion::Unparsable(e.to_string()),
     };
+    let ts = if src.contains("__ng") { none_groups(ts) } else { ts };
     expand_tokens(ts)
+}
+
+/// `__ng(tokens)` becomes the invisible None-delimited group in which `macro_rules!` hands a `$x:ty` / `$x:expr` /
+/// `$x:path` fragment to a derive (source text cannot spell such a group)
+pub fn none_groups(ts: proc_macro2::TokenStream) -> proc_macro2::TokenStream {
+    use proc_macro2::{Delimiter, Group, TokenTree};
+    let mut out: Vec<TokenTree> = Vec::new();
+    let mut it = ts.into_iter().peekable();
+    while let Some(tt) = it.next() {
+        match tt {
+            TokenTree::Ident(ref i) if i == "__ng" => {
+                if let Some(TokenTree::Group(g)) = it.peek() {
+                    if g.delimiter() == Delimiter::Parenthesis {
+                        let inner = none_groups(g.stream());
+                        out.push(TokenTree::Group(Group::new(Delimiter::None, inner)));
+                        it.next();
+                        continue;
+                    }
+                }
+                out.push(tt);
+            },
+            TokenTree::Group(g) => {
+                let mut ng = Group::new(g.delimiter(), none_groups(g.stream()));
+                ng.set_span(g.span());
+                out.push(TokenTree::Group(ng));
+            },
+            other => out.push(other),
+        }
+    }
+    out.into_iter().collect()
 }
 
 pub fn expand_tokens(ts: proc_macro2::TokenStream) -> Expansion {
